@@ -108,6 +108,11 @@ def audit_property_module(pid, expected):
         rc, err = translate()
         if rc != 0:
             raise Broken("translator: " + err.strip())
+        # the (untrusted) certificate for the parser.rs tables comes from the model driver
+        r0 = run(["lake", "build", "kvmodel"], cwd=LEAN, timeout=3600)
+        if r0.returncode != 0:
+            raise Broken("lake build kvmodel failed:\n" + (r0.stdout + r0.stderr)[-3000:])
+        run([sys.executable, os.path.join(ROOT, "tools", "mk_cert.py")], timeout=300)
         r = run(["lake", "build", mod], cwd=LEAN, timeout=3600)
         if r.returncode != 0:
             raise Broken(f"lake build {mod} failed:\n" + (r.stdout + r.stderr)[-4000:])
